@@ -244,7 +244,10 @@ class GaussianKDE(DensityEstimator):
         x = linspace(self.lwr_limit, self.upr_limit, N)
         p = self(x)
 
-        mu = simpson(p * x, x=x)
+        # integrate relative to the centre of the range, so that the small error in the
+        # normalisation of the integral is not multiplied by the location of the data
+        x0 = 0.5 * (self.lwr_limit + self.upr_limit)
+        mu = x0 + simpson(p * (x - x0), x=x)
         dx = x - mu
         I = p * dx**2
         var = simpson(I, x=x)
